@@ -886,7 +886,7 @@ pub fn c04(tier: Tier) -> i32 {
         "the main enumeration runs in a build with debug assertions and overflow checks (the checked from_utf8 branch, slice indexing and arithmetic turn the reachable faults into panics); the build users ship is covered by the release differential (same outcomes) and, in the thorough tier, by valgrind memcheck over the byte-substitution universe".into(),
     ];
     start_watchdog("C04");
-    docu::run(&mut rep, tier, &["byte", "tok-wide", "ctx", "esc", "num", "edge", "dt", "raw", "corpus", "decor", "stmt-small", "cp", "utf8", "vtok"], &c04_eval);
+    docu::run(&mut rep, tier, &["byte", "tok-wide", "ctx", "esc", "num", "edge", "dt", "raw", "corpus", "decor", "stmt-small", "cp", "utf8", "bom", "vtok"], &c04_eval);
     typed(&mut rep, tier);
     if let Err(e) = growth(&mut rep, tier) {
         println!("MACHINERY-ERROR {}", e);
